@@ -10,8 +10,8 @@ ENGINES = [
      "kind_free_text": "file.New + SpokFile.Run with a recording shell.Runner against reference models (cache model, graph closure, glob matcher)"},
     {"name": "hashing", "path": "harness/hashing", "serves_properties": ["C04", "C18"],
      "kind_free_text": "hash.Concurrent under -race / GOMAXPROCS / taskset variation, child-process crash observation, fault injection by construction"},
-    {"name": "cli", "path": "harness/cli", "serves_properties": ["C09", "C10", "C12", "C13", "C17", "C19", "C20"],
-     "kind_free_text": "the built spok binary run as uid 65534 in a throw-away sandbox tree, with before/after snapshots"},
+    {"name": "cli", "path": "harness/cli", "serves_properties": ["C09", "C10", "C12", "C13", "C17", "C19", "C20", "C05", "C07", "C11", "C14", "C15"],
+     "kind_free_text": "the built spok binary run as uid 65534 in a throw-away sandbox tree, with before/after snapshots; also supplies the binary legs (--fmt, --clean with glob outputs, --force with implicit task selection) of properties whose main engine is in-process; strace fault injection for system-call level crash points"},
 ]
 
 # id -> (engine, category, technique, level text, level note, design ref)
@@ -24,7 +24,7 @@ add("C06", "syntax", "exploration", "property-based testing: generated abstract 
     "Every generated structure, rendered in a random (quick) or exhaustively enumerated (thorough, small structures) admissible layout, parses back to exactly that structure; shrunk counter-example on failure. Sampling beyond the enumerated layouts.",
     "Trusts the harness's renderer to emit only layouts the documentation admits (derived from the lexer's transitions and the user guide) and the projection ast->model.", "DESIGN.md §4 C06")
 add("C07", "syntax", "exploration", "bounded-exhaustive enumeration + property-based testing + coverage-guided fuzzing with a round-trip / semantic-projection oracle",
-    "All strings over the 25-symbol class alphabet up to length 5 (quick) / 6 (thorough) are enumerated completely; beyond that generated programs, permissive-grammar inputs and (thorough) native fuzzing. For each parsing input the formatted text must parse to the same semantic projection.",
+    "All strings over the 25-symbol class alphabet up to length 5 (quick) / 6 (thorough) are enumerated completely; beyond that generated programs, permissive-grammar inputs and (thorough) native fuzzing. For each parsing input the formatted text must parse to the same semantic projection. Binary leg: generated spokfiles formatted in place by `spok --fmt` in the sandbox and judged by the same projection.",
     "Semantic projection (variables, values, tasks, dependencies, outputs, commands; commands up to trailing blanks) is the harness's reading of 'what a spokfile does'.", "DESIGN.md §4 C07")
 add("C08", "syntax", "exploration", "bounded-exhaustive enumeration + property-based testing (prefix truncation, biased bytes) + fuzzing; crash/stall attribution through a shared-memory progress area",
     "Every class-alphabet string up to the bound, every byte prefix of generated programs, biased byte strings: parsed twice in watchdogged worker processes; no crash, no stall, equal results, located error text.",
@@ -46,13 +46,13 @@ add("C02", "runinproc", "exploration", "stateful property-based testing against 
     "Same histories: an executed task in an unforced run never has inputs equal to its last success (unless tainted by a later failure or cache removal); tasks without file dependencies are never skipped.",
     CACHE_NOTE + " After a failed run of a task both outcomes are accepted (don't-care).", "DESIGN.md §4 C02")
 add("C14", "runinproc", "exploration", "stateful property-based testing against a reference model with forced runs in every position",
-    "Same histories with --force drawn with probability 1/2: forced runs report and execute every requested task, never skip; later unforced skips of tasks whose last success was forced satisfy the C01 condition.",
+    "Same histories with --force drawn with probability 1/2: forced runs report and execute every requested task, never skip; later unforced skips of tasks whose last success was forced satisfy the C01 condition. Binary leg: after a priming run, `spok --force <name>`, `spok --force` (default task) and `spok --clean --force` (user clean task) re-execute every task of the closure.",
     CACHE_NOTE + " Completeness of the transitive closure is C03's business and not re-judged here.", "DESIGN.md §4 C14")
 add("C03", "runinproc", "exploration", "bounded-exhaustive enumeration of dependency graphs x requests plus property-based sampling, validity-predicate oracle from reachability + DFS",
     "Every edge set (incl. self-loops) on up to 3 (quick) / 4 (thorough) tasks x every request subset and extra orderings, repeated so that map iteration inside the sort varies; sampled graphs on 4-8 tasks with duplicates, undefined names, failing commands, file dependencies.",
     "Reference: reachability and DFS cycle test over the declared edges. Cycles unreachable from the request are a don't-care (error or normal run).", "DESIGN.md §4 C03")
 add("C05", "runinproc", "exploration", "bounded-exhaustive enumeration of directory trees x patterns against a reference matcher over a full walk (differential), plus property-based random trees",
-    "Every subset of a 10 (quick) / 12 (thorough) path pool x 22 patterns, expanded through parse -> file.New -> Run -> SpokFile.Globs twice; compared as sets of regular files with an independent matcher.",
+    "Every subset of a 10 (quick) / 12 (thorough) path pool x 22 patterns, expanded through parse -> file.New -> Run -> SpokFile.Globs twice (pattern tasks requested directly and reached through two levels of task dependencies); compared as sets of regular files with an independent matcher. Binary leg: `spok --clean` with glob-only outputs removes exactly the denoted files.",
     "The reference matcher is cross-checked against doublestar.Match on the pattern set; symlinks are not generated.", "DESIGN.md §4 C05")
 
 add("C04", "hashing", "exploration", "property-based testing with metamorphic relations (permutation, directory interleaving, GOMAXPROCS, CPU affinity) and a run-wide injectivity book, also under the race detector",
@@ -76,9 +76,9 @@ add("C12", "cli", "exploration", "property-based testing of the binary with a wh
 add("C09", "cli", "exploration", "property-based testing of the binary with a side-effect log as ground truth, followed by a second run (history of length two)",
     "Generated spokfiles with failing commands at any position (statuses 1..255) under each of {plain, --quiet, --json, --force and combinations}: the invocation exits non-zero and names a failing task; the next unforced run never reports a failed task skipped, never succeeds, and re-executes a sole failing task.",
     SB_NOTE + "Whether later commands/tasks still run after a failure is a don't-care; which of several failing tasks is named is free.", "DESIGN.md §4 C09")
-add("C10", "cli", "fault_enumeration", "fault injection by construction: SIGKILL from inside every task position, every byte prefix of the cache file, inside model-based histories checked against a reference cache model",
-    "Histories over the C01 universe with kill -9 of spok from inside any task of the run order and truncation of cache.json to prefixes (all byte lengths for two fixed programs in the thorough tier, every 7th in quick), each followed by continuations of edits/reverts and an unforced run: no wrongly skipped task ever, and after a fault either normal behaviour or an explicit error that mentions the cache (never a Go panic).",
-    SB_NOTE + "Process death only (no power loss / reordering of unsynced writes). Kill points are task positions and cache-file prefixes, not every machine instruction; the optional crash-point hook of DESIGN.md §1.7 is not used.", "DESIGN.md §4 C10")
+add("C10", "cli", "fault_enumeration", "fault injection by construction: SIGKILL from inside every task position, at every file-system system call (strace inject), every byte prefix of the cache file, inside model-based histories checked against a reference cache model",
+    "Histories over the C01 universe with kill -9 of spok (a) from inside any task of the run order, (b) on entering its N-th openat/write/rename/close/fsync/mkdir/unlink system call for every N (strace fault injection: every crash point between two file-system operations), and (c) truncation of cache.json to prefixes (all byte lengths for two fixed programs in the thorough tier, every 7th in quick), each followed by continuations of edits/reverts and an unforced run: no wrongly skipped task ever, and after a fault either normal behaviour or an explicit error that mentions the cache (never a Go panic).",
+    SB_NOTE + "Process death only (no power loss / reordering of unsynced writes). Crash points are system-call entries, task positions and cache-file prefixes, not every machine instruction. Needs strace for (b); without it that leg is skipped and noted in the evidence.", "DESIGN.md §4 C10 and §10")
 add("C19", "cli", "exploration", "property-based testing of the binary with a whole-HOME before/after snapshot against the write-set each action permits",
     "Random trees x valid/invalid/absent spokfiles x every flag subset of {--show,--vars,--fmt,--init,--force,--quiet,--json,--debug} and task names, from root and nested cwd: every created/modified/removed path lies in the permitted set, --fmt output equals the in-process formatter, --init never overwrites and only appends to .gitignore.",
     SB_NOTE + "Task commands are restricted to side-effect-free ones so that every change is spok's own.", "DESIGN.md §4 C19")
